@@ -25,6 +25,13 @@ pub fn verify_oods<Layout: LayoutTrait>(
     trace_domain_size: &Felt,
     trace_generator: &Felt,
 ) -> Result<(), OodsVerifyError> {
+    // The vector holds the mask values followed by the CONSTRAINT_DEGREE composition values, and
+    // nothing else: the composition entries checked here must be the ones the DEEP quotient opens.
+    let expected_len = Layout::MASK_SIZE + Layout::CONSTRAINT_DEGREE;
+    if oods.len() != expected_len {
+        return Err(OodsVerifyError::InvalidLength { expected: expected_len, actual: oods.len() });
+    }
+
     let composition_from_trace = Layout::eval_composition_polynomial(
         interaction_elements,
         public_input,
@@ -64,6 +71,8 @@ use thiserror::Error;
 pub enum OodsVerifyError {
     #[error("oods invalid {expected} - {actual}")]
     EvaluationInvalid { expected: Felt, actual: Felt },
+    #[error("oods values length invalid: expected {expected}, got {actual}")]
+    InvalidLength { expected: usize, actual: usize },
     #[error("CompositionPolyEval Error")]
     CompositionPolyEvalError(#[from] CompositionPolyEvalError),
 }
@@ -76,6 +85,8 @@ use thiserror_no_std::Error;
 pub enum OodsVerifyError {
     #[error("oods invalid {expected} - {actual}")]
     EvaluationInvalid { expected: Felt, actual: Felt },
+    #[error("oods values length invalid: expected {expected}, got {actual}")]
+    InvalidLength { expected: usize, actual: usize },
     #[error("CompositionPolyEval Error")]
     CompositionPolyEvalError(#[from] CompositionPolyEvalError),
 }
